@@ -237,3 +237,59 @@ class ObjectiveCall(Unit):
 
 
 UNITS = [NonlinearCall(), ObjectiveCall()]
+
+
+# ---- utils.get_arrays_tol: the tolerance that decides "lb == ub" (C17) is a defined positive number whatever the arrays contain -----
+class ArraysTol(Unit):
+    """NonlinearConstraints.__call__, LinearConstraints.__init__ and Problem.__init__ compare |ub - lb| with this tolerance to recognise
+    equalities and fixed variables; their units assume a defined non-negative tolerance.  Here: for one or two arrays of any length
+    with arbitrary contents (NaN, +-inf) the result is not NaN and > 0."""
+    name = "utils.get_arrays_tol"
+    props = ("C17", "C10", "C02")
+    fmodel = "ORDER"
+    functions = [("cobyqa.utils.math", "get_arrays_tol")]
+    replay = ("contracts.replays", "arrays_tol")
+    assumptions = ["that the product 10 EPS max(size, 1) weight does not overflow is not proved (ORDER model)"]
+
+    def run(self, c):
+        m = shadow("cobyqa.utils.math") if "math" not in _SH else _SH["math"]
+        _SH["math"] = m
+        narr = 1 + c.choose("n_arrays", 2, ["1", "2"])
+        arrs = []
+        for k in range(narr):
+            n = z3.Int(c.fresh_name(f"len{k}"))
+            c.assume(n >= 0)
+            c.size_hints.append(n)
+            arrs.append(vecs.fresh_vec(f"a{k}", n, owner="user"))
+        kind, res = call_expecting(c, "C08.get_arrays_tol", lambda: m.get_arrays_tol(*arrs), ())
+        r = SF.lift(res)
+        c.oblige("C17.get_arrays_tol.defined_and_positive", z3.And(z3.Not(r.nan), r.r > 0), props=["C17", "C10", "C02"],
+                 note="the tolerance deciding lb == ub is NaN or not positive: equalities / fixed variables are no longer recognised")
+        c.oblige("C11.get_arrays_tol.arguments_untouched", z3.BoolVal(all(a.version == 0 for a in arrs)), props=["C17"])
+        if narr == 2 and "sweep" not in c.ghost:
+            # bounded complement (a refutation of the clause above needs a counter-model the solvers rarely find among the quantified
+            # float axioms): the real function on seeded arrays with NaN / +-inf entries at every position, in either argument
+            import numpy as np
+            from pyvc.transform import ensure_repo_on_path
+            from .subsolvers_bounded import rng_for
+            from .replays import arrays_tol
+            ensure_repo_on_path()
+            rng = rng_for(self.name)
+            bad = None
+            for k in range(500):
+                arrs_ = []
+                for _ in range(int(rng.integers(1, 3))):
+                    a = rng.standard_normal(int(rng.integers(0, 5))) * 10.0 ** rng.integers(-3, 4)
+                    for j in range(a.size):
+                        u = rng.random()
+                        if u < 0.25:
+                            a[j] = [np.nan, np.inf, -np.inf][int(rng.integers(0, 3))]
+                    arrs_.append(a)
+                r = arrays_tol(**{f"a{j}": a.tolist() for j, a in enumerate(arrs_)})
+                if r["reproduced"] and bad is None:
+                    bad = {f"a{j}": [("nan" if e != e else e) for e in a.tolist()] for j, a in enumerate(arrs_)}
+            c.oblige("C17.get_arrays_tol.defined_and_positive[500 cases]", z3.BoolVal(bad is None), kind="bounded", props=["C17", "C10", "C02"],
+                     note=None if bad is None else f"{bad}", replay_inputs=bad)
+
+
+UNITS.append(ArraysTol())
